@@ -765,7 +765,10 @@ class ExprMixin:
                 self.note_ref(st, ev, z3.Select(s.dom(lift(recv)), k))
             return ev
         if isinstance(t, T.Map):
-            return Val(t.v, z3.Select(lift(recv), lift(idx, t.k)))
+            arr, k = lift(recv), lift(idx, t.k)
+            if getattr(self.c, "beta_reduce", False) and z3.is_quantifier(arr) and arr.is_lambda() and arr.num_vars() == 1:
+                return Val(t.v, z3.substitute_vars(arr.body(), k))  # (lambda n. body)[k] = body[n := k]
+            return Val(t.v, z3.Select(arr, k))
         if isinstance(t, T.Ref):
             cs = self.class_of(t)
             if cs.getitem is None:
